@@ -63,6 +63,11 @@ class Model:
             op.chop(0, count=2 + i)
             op.chop(1, count=3)
             op.chop(2, count=4)
+        # the last operation projects two corners it shares with its neighbour (and one of its own): if it is deleted, the
+        # projections go with it
+        ops[-1].project_corner(0, "terrain")
+        ops[-1].project_corner(4, ["terrain", "wall"])
+        ops[-1].project_corner(6, "wall")
 
     def build(self, corners, deleted, patch_mod, default):
         """a fresh Mesh from an abstract state"""
@@ -76,6 +81,7 @@ class Model:
             for i, op in enumerate(ops):
                 if i not in deleted:
                     mesh.add(op)
+        mesh.add_geometry({g: ["type triSurfaceMesh", f'file "{g}.stl"'] for g in ("terrain", "wall")})
         for name, (kind, settings) in patch_mod.items():
             mesh.modify_patch(name, kind, settings)
         if default:
@@ -116,6 +122,11 @@ def _same_file(sx, got, want, label, key):
             a, b = got["boundary"][n], want["boundary"][n]
             if (a["type"], a["settings"], a["faces"]) != (b["type"], b["settings"], b["faces"]):
                 problems.append(f"patch {n}: {a['type']} {a['settings']} {a['faces']} != {b['type']} {b['settings']} {b['faces']}")
+    if [sorted(v["project"]) for v in got["vertices"]] != [sorted(v["project"]) for v in want["vertices"]]:
+        problems.append(f"projected vertices {[(i, v['project']) for i, v in enumerate(got['vertices']) if v['project']]} != "
+                        f"{[(i, v['project']) for i, v in enumerate(want['vertices']) if v['project']]}")
+    if got["geometry"] != want["geometry"]:
+        problems.append("geometry sections differ")
     if got["default"] != want["default"]:
         problems.append(f"defaultPatch {got['default']} != {want['default']}")
     if got["merged"] != want["merged"] or got["faces"] != want["faces"] or len(got["edges"]) != len(want["edges"]):
@@ -142,6 +153,7 @@ def run(sx, n, steps, restrict=None, all_vertices=False, symbolic_placement=True
     else:
         for op in ops:
             mesh.add(op)
+    mesh.add_geometry({g: ["type triSurfaceMesh", f'file "{g}.stl"'] for g in ("terrain", "wall")})
     # the assembled snapshot the library works on (None = not assembled)
     snap = None
     history = []
